@@ -37,13 +37,25 @@ def masks_of(slices):
     return [[int(b) for b in np.asarray(m).astype(int).tolist()] for m in slices]
 
 
-def _bounds_bits(data, slices, bounds, eps):
+def _bounds_bits(data, slices, bounds, eps, ends="closed"):
+    """exact float comparisons (eps = 0): 'reported boundaries contain their interval's members'
+    with the documented open / closed ends, 'do not overlap' as hi_i <= lo_(i+1).
+    ends: 'ropen' [lo, hi), 'lopen' (lo, hi], 'closed' [lo, hi]; the last interval of an
+    include_max slicer is closed (ends = 'ropen+last')."""
     contain = True
-    for m, (lo, hi) in zip(slices, bounds):
+    nb = len(bounds)
+    for t, (m, (lo, hi)) in enumerate(zip(slices, bounds)):
         mem = data[np.asarray(m, dtype=bool)]
-        if mem.size and not (np.all(mem >= lo - eps) and np.all(mem <= hi + eps)):
-            contain = False
-    disjoint = all(bounds[i][1] <= bounds[i + 1][0] + eps for i in range(len(bounds) - 1))
+        if not mem.size:
+            continue
+        if ends == "ropen" or (ends == "ropen+last" and t < nb - 1):
+            ok = np.all(mem >= lo) and np.all(mem < hi)
+        elif ends == "lopen":
+            ok = np.all(mem > lo) and np.all(mem <= hi)
+        else:
+            ok = np.all(mem >= lo) and np.all(mem <= hi)
+        contain = contain and bool(ok)
+    disjoint = all(bounds[i][1] <= bounds[i + 1][0] for i in range(len(bounds) - 1))
     return contain, disjoint
 
 
@@ -110,7 +122,9 @@ def make_record(vc, rid, case):
                 q, ok = proj_q(float(val), unitf)
                 onlat = onlat and ok
                 dst.append(q - shift if q != -1 or val == val else -1)
-        contain, disjoint = _bounds_bits(data, sl, bnds, eps)
+        ends = {"width": ("ropen" if rec["ropen"] else "lopen"),
+                "number": ("ropen+last" if rec["incmax"] else "ropen"), "points": "closed"}[kind]
+        contain, disjoint = _bounds_bits(data, sl, bnds, eps, ends)
         rec.update(raw=masks_of(sl), refsq=refsq, loq=loq, hiq=hiq, onlat=bool(onlat),
                    contain=bool(contain), disjoint=bool(disjoint))
         # configured call
@@ -249,7 +263,7 @@ def run(ctx):
                 "width/points slicer")
     ctx.trusted = ["TLC 1.8 evaluating spec/SlicingOps.tla clause operators",
                    "harness/c10.py projection of floats to lattice quarter-units (checked on-lattice to 1e-6)",
-                   "float comparison bits BoundsContain/BoundsDisjoint computed with tolerance 1e-9*width"]
+                   "float comparison bits BoundsContain/BoundsDisjoint computed exactly (no tolerance) with the documented open/closed ends"]
     ctx.assumptions = ["PointsPerIntervalSlicer is only exercised with len(data) >= n_points "
                        "(fewer points raise ZeroDivisionError inside numpy.split; outside the stated domain)",
                        "a value exactly on an ideal edge may belong to either neighbour for non-dyadic float widths"]
